@@ -207,6 +207,15 @@ Definition many_sep (cb : callback) (p sep : parser) : parser := fun s =>
   | (Hang, k) => (Hang, (1 + k)%N)
   end.
 
+(* parsec.Kleene(cb, p, sep): as Many with a separator, but no element is fine *)
+Definition kleene_sep (cb : callback) (p sep : parser) : parser := fun s =>
+  match sep_loop (S (String.length s)) p sep s with
+  | (Ok ns r, k) => (Ok (docb cb ns) r, (1 + k)%N)
+  | (Fail, k) => (Fail, (1 + k)%N)
+  | (NoFuel, k) => (NoFuel, (1 + k)%N)
+  | (Hang, k) => (Hang, (1 + k)%N)
+  end.
+
 (* parsec.Maybe(cb, p) *)
 Definition maybe (cb : callback) (p : parser) : parser := fun s =>
   match p s with
